@@ -35,8 +35,9 @@ class RecordingRegressor(BaseEstimator, RegressorMixin):
     """fit stores copies of what it was given; predict is a deterministic function of
     the stored training set and of the row, so an output identifies the model."""
 
-    def __init__(self, tag=0, yield_fit=0, yield_predict=0, random_state=None, keep_reference=False):
+    def __init__(self, tag=0, yield_fit=0, yield_predict=0, random_state=None, keep_reference=False, reseed_global=False):
         self.tag = tag
+        self.reseed_global = reseed_global        # True: fit seeds NumPy's global generator (legacy code does, "to be reproducible")
         self.yield_fit = yield_fit
         self.yield_predict = yield_predict
         self.random_state = random_state          # never used: a seeded base estimator is an ordinary thing to hand to a meta-estimator
@@ -45,6 +46,8 @@ class RecordingRegressor(BaseEstimator, RegressorMixin):
     def fit(self, X, y, sample_weight=None):
         self.ordinal_ = _next_ordinal()
         _maybe_yield(self.yield_fit, self.ordinal_)
+        if self.reseed_global:
+            np.random.seed(self.random_state or 0)
         X = np.asarray(X)
         if self.keep_reference and X.ndim == 2 and X.dtype == np.float64:
             self.seen_X_ = X
@@ -201,7 +204,9 @@ class CentroidClassifier(BaseEstimator, ClassifierMixin):
         y = np.asarray(y)
         self.classes_ = np.unique(y)
         w = np.ones(len(y)) if sample_weight is None else np.asarray(sample_weight, dtype=np.float64)
-        self.centroids_ = np.stack([(X[y == c] * w[y == c, None]).sum(axis=0) / w[y == c].sum() for c in self.classes_])
+        # a class whose weights sum to zero keeps its plain mean (no NaN centroid: the harness compares outputs for equality)
+        self.centroids_ = np.stack([(X[y == c] * w[y == c, None]).sum(axis=0) / w[y == c].sum() if w[y == c].sum() > 0 else X[y == c].mean(axis=0)
+                                    for c in self.classes_])
         self.n_features_in_ = X.shape[1]
         return self
 
